@@ -132,6 +132,13 @@ def cases(tier, rng):
     thorough = tier == "thorough"
     for tag, f in valid_files(tier, rng):
         yield Case(f"bmp.rt {hexs(f)}", check=check_rt, tag="rt-" + tag)
+        # the same file with slack after the last scan line (size field and stream length include it): whatever the
+        # reader does with it, what it returns must still be a valid bitmap of exactly |height| rows
+        if tag != "odd-header" and (thorough or rng.random() < 0.12):
+            for k in rng.sample([1, 2, 3, 4, 5, 8, 64], 2):
+                g = subst_bmp(f + bytes(rng.randrange(256) for _ in range(k)), "size", len(f) + k)
+                yield Case(f"bmp.rt {hexs(g)}", check=check_rt, tag="rt-trailing-slack")
+                yield Case(f"bmp.rt {hexs(f + bytes(k))}", check=check_rt, tag="rt-trailing-bytes-not-in-size")
         if thorough or rng.random() < 0.5:
             yield Case(f"bmp.invert {hexs(f)}", check=check_invert, tag="invert-" + tag)
     # factories
